@@ -834,7 +834,11 @@ def gen(rs: int, index: int, tier: str) -> Dict[str, Any]:
     prelude = None
     if rp.random() < 0.3:
         prelude = rp.choice([b for b in ["somersault", "somersault_modified", "somersault_renamed", "zoo0", "zoo2"] if b != base])
-    return {"base": base, "prelude": prelude, "pert": pert, "entries": [e1, e2], "orders": [r.randint(0, 10**6), r.randint(0, 10**6)],
+    renv = S.rng("env")
+    env = {"tz": [renv.choice(["UTC", "Europe/Berlin", "America/Los_Angeles", "Asia/Kolkata"]),
+                  renv.choice(["UTC", "Europe/Berlin", "Pacific/Kiritimati", "Asia/Kolkata"])],
+           "relative_paths": renv.random() < 0.3}
+    return {"base": base, "prelude": prelude, "pert": pert, "env": env, "entries": [e1, e2], "orders": [r.randint(0, 10**6), r.randint(0, 10**6)],
             "index_pos": [r.choice(["first", "last", "middle", "keep"]), r.choice(["first", "last", "middle", "keep"])],
             "clock": [1_700_000_000.0 + r.randint(0, 10**7), jump[0], jump[1]]}
 
@@ -1006,6 +1010,18 @@ def execute(trace: Dict[str, Any]) -> Dict[str, Any]:
                              "clock": trace["clock"][1]})
     workdir = tempfile.mkdtemp(prefix="vsim-c11-")
     STATE["skip_derived_in_compare"] = bool(pert and pert.get("kind") == "populate")
+    env = trace.get("env") or {"tz": ["UTC", "UTC"], "relative_paths": False}
+    old_tz, old_cwd = os.environ.get("TZ"), os.getcwd()
+
+    def set_tz(name: str) -> None:
+        import time as _t
+        os.environ["TZ"] = name
+        _t.tzset()
+
+    set_tz(env["tz"][0])
+    if env.get("relative_paths"):
+        os.chdir(workdir)
+        faults["relative_paths_and_other_cwd"] = 1
     try:
         with W.quiet():
             try:
@@ -1069,7 +1085,8 @@ def execute(trace: Dict[str, Any]) -> Dict[str, Any]:
                     sets["class_field_accepted"].add(h64(cls, field))
                 # write P1 at T1
                 clock.now = float(trace["clock"][0])
-                p1 = os.path.join(workdir, "p1.pdx")
+                wd = "" if env.get("relative_paths") else workdir
+                p1 = os.path.join(wd, "p1.pdx")
                 try:
                     odxtools.write_pdx_file(p1, db0)
                 except Exception as e:  # noqa: BLE001
@@ -1084,12 +1101,12 @@ def execute(trace: Dict[str, Any]) -> Dict[str, Any]:
                         violations.append({"oracle": "C11.O1-wellformed", "sig": {"cls": cls, "field": field, "vclass": vclass},
                                            "detail": {"member": bad[0], "error": bad[1], "pert": pert}})
                 if outcome == "ok":
-                    p1r = os.path.join(workdir, "p1r.pdx")
+                    p1r = os.path.join(wd, "p1r.pdx")
                     names = repack(p1, p1r, trace["orders"][0], trace["index_pos"][0])
                     faults["member_order_" + trace["index_pos"][0]] = 1
                     faults["entry_" + trace["entries"][0]] = faults.get("entry_" + trace["entries"][0], 0) + 1
                     try:
-                        db1 = load_via(trace["entries"][0], p1r, workdir, trace["orders"][0])
+                        db1 = load_via(trace["entries"][0], p1r, wd or ".", trace["orders"][0])
                     except Exception as e:  # noqa: BLE001
                         sig = exc_sig(e)
                         if pert and (vclass in ("plain", "empty") or pert["kind"] == "list"):
@@ -1139,9 +1156,12 @@ def execute(trace: Dict[str, Any]) -> Dict[str, Any]:
                 if outcome == "ok":
                     # write P2 after a clock jump, from the reloaded database
                     clock.now = float(trace["clock"][0]) + float(trace["clock"][2])
+                    set_tz(env["tz"][1])
+                    if env["tz"][0] != env["tz"][1]:
+                        faults["time_zone_change_between_writes"] = 1
                     sim_time = abs(float(trace["clock"][2]))
                     faults["clock_jump_" + trace["clock"][1]] = 1
-                    p2 = os.path.join(workdir, "p2.pdx")
+                    p2 = os.path.join(wd, "p2.pdx")
                     odxtools.write_pdx_file(p2, db1)
                     m1, m2 = odx_members(p1), odx_members(p2)
                     if collateral:
@@ -1161,11 +1181,11 @@ def execute(trace: Dict[str, Any]) -> Dict[str, Any]:
                                                "second": b[max(0, pos - 40):pos + 40].decode("utf-8", "replace"), "pert": pert,
                                                "clock_jump": trace["clock"][1]}})
                                 break
-                    p2r = os.path.join(workdir, "p2r.pdx")
+                    p2r = os.path.join(wd, "p2r.pdx")
                     repack(p2, p2r, trace["orders"][1], trace["index_pos"][1])
                     faults["entry_" + trace["entries"][1]] = faults.get("entry_" + trace["entries"][1], 0) + 1
                     try:
-                        db2 = load_via(trace["entries"][1], p2r, workdir, trace["orders"][1])
+                        db2 = load_via(trace["entries"][1], p2r, wd or ".", trace["orders"][1])
                     except Exception as e:  # noqa: BLE001
                         db2 = None
                         sig = exc_sig(e)
@@ -1194,6 +1214,13 @@ def execute(trace: Dict[str, Any]) -> Dict[str, Any]:
                         counters["behaviour_samples"] = len(b0)
                         states.add(h64(trace["entries"][0], trace["entries"][1], trace["index_pos"][0], trace["clock"][1]))
     finally:
+        os.chdir(old_cwd)
+        if old_tz is None:
+            os.environ.pop("TZ", None)
+        else:
+            os.environ["TZ"] = old_tz
+        import time as _t
+        _t.tzset()
         shutil.rmtree(workdir, ignore_errors=True)
         STATE["listdir_perm"] = None
     counters["outcome_" + outcome] = 1
